@@ -130,7 +130,16 @@ Step ==
               THEN (IF Ev.res = "ok" THEN val \cup {BSet(Ev)} ELSE val)
               ELSE val \ {BSet(Ev)}
 
-Next == Reset \/ Step
+\* a second, different snapshot aimed at an occupied position is refused and changes nothing
+Reuse ==
+    /\ IsEvent("Reuse")
+    /\ (Mode \in {"full", "C35"} =>
+          /\ Ev.res # "ok"
+          /\ Ev.posafter = Ev.posbefore
+          /\ Ev.lookupsame /\ Ev.hashok)
+    /\ UNCHANGED <<lvars, prev, val>>
+
+Next == Reset \/ Step \/ Reuse
 Spec == Init /\ [][Next]_<<l, lvars, prev, val>>
 
 HW == HighWaterOf(l)
